@@ -9,6 +9,7 @@ using namespace gen;
 // index-heavy workload: 1-3 owner sessions keep ordered lists under a few parent nodes; 1-4 subscribers (incl. the owners) join at arbitrary points
 inline Plan Gen(uint64_t seed)
 {
+   gen::ClauseModeScope clauseMode(seed);
    Rng cfg(seed, "config"), wl(seed, "workload"), fl(seed, "faults");
    Plan p;
    const int clients = 2 + (int) cfg.below(4), hosts = 1 + (int) cfg.below(2);
@@ -30,7 +31,7 @@ inline Plan Gen(uint64_t seed)
       const std::string sendPfx = (inBatch ? "bsend " : "send ") + I(c) + " ";
       const std::string par = parents[wl.below(3)];
       const uint32_t k = wl.below(100);
-      if (k < 8) p.push_back(sendPfx + "setdata - " + par + "=" + U(g.val++) + ":-");                                   // (re)create a parent node
+      if (k < 8) p.push_back(sendPfx + "setdata " + (wl.oneIn(2) ? "s" : "-") + " " + par + "=" + U(g.val++) + ":-");   // (re)create a parent node; with the supercede flag the server prunes older queued updates of that node (never its queued index instructions)
       else if (k < 30)
       {
          // ordered insert: before a named sibling (explicit name, or a generated one I0..I5 that may or may not exist), or at the end; sometimes two per command; sometimes a wildcard parent
@@ -39,6 +40,7 @@ inline Plan Gen(uint64_t seed)
          const int n = wl.oneIn(4) ? 2 : 1;
          for (int i=0; i<n; i++) {std::string before = "-"; const uint32_t b = wl.below(10); if (b < 3) before = explicitKids[wl.below(4)]; else if (b < 6) before = "I" + I(wl.below(6)); s += " " + before + " " + U(g.val++);}
          p.push_back(sendPfx + s);
+         if ((pp != "*")&&(wl.oneIn(5))) p.push_back(sendPfx + "setdata s " + par + "=" + U(g.val++) + ":-");
       }
       else if (k < 40) p.push_back(sendPfx + "setdata i " + par + "/" + explicitKids[wl.below(4)] + "=" + U(g.val++) + ":" + I(wl.below(4)));   // add-to-index with an explicit name
       else if (k < 46) p.push_back(sendPfx + "setdata - " + par + "/" + (wl.oneIn(2) ? explicitKids[wl.below(4)] : ("I" + I(wl.below(6)))) + "=" + U(g.val++) + ":1");   // plain set of an (un)indexed child
